@@ -1020,3 +1020,201 @@ func keysOf(m map[string]bool) []string {
 	sort.Strings(out)
 	return out
 }
+
+// ---- C01.R6 the two kind routers of the encoder compiler take the same decisions ----
+
+// typeToCode handles the root (and what a pointer points to); typeToCodeWithPtr handles every nested
+// position. For a kind both route, the clause bodies must be the same up to the isPtr argument.
+func c01r6(rc *core.RC) {
+	p := rc.P
+	a, b := p.Func("encoder", "Compiler.typeToCode"), p.Func("encoder", "Compiler.typeToCodeWithPtr")
+	if a == nil || b == nil {
+		rc.Unknown("encoder.typeToCode/typeToCodeWithPtr", token.NoPos, "routers not found")
+		return
+	}
+	rc.Touch("encoder.(*Compiler).typeToCode")
+	rc.Touch("encoder.(*Compiler).typeToCodeWithPtr")
+	ia, ib := p.Info(a), p.Info(b)
+	ka, kb := kindSwitches(ia, a), kindSwitches(ib, b)
+	if len(ka) == 0 || len(kb) == 0 {
+		rc.Unknown("encoder.typeToCode/kind-switch", a.Pos(), "kind switch not found")
+		return
+	}
+	sa, sb := ka[len(ka)-1], kb[len(kb)-1]
+	isPtrOnly := func(info *types.Info, st ast.Stmt) bool {
+		ifs, ok := st.(*ast.IfStmt)
+		if !ok {
+			return false
+		}
+		id, ok := core.Unparen(ifs.Cond).(*ast.Ident)
+		return ok && id.Name == "isPtr"
+	}
+	opt := core.NormOpts{Subst: map[string]string{"isPtr": "false"}, DropStmt: isPtrOnly}
+	n := 0
+	for _, k := range jsonKinds {
+		ca, cb := sa.clause[k], sb.clause[k]
+		if ca == nil || cb == nil {
+			continue
+		}
+		n++
+		na := core.NormalStmts(p.Fset, ia, ca.Body, opt)
+		nb := core.NormalStmts(p.Fset, ib, cb.Body, opt)
+		key := "encoder.typeToCode~typeToCodeWithPtr/kind " + k
+		if i := core.FirstDiff(na, nb); i >= 0 {
+			da, db := "<end>", "<end>"
+			if i < len(na) {
+				da = na[i]
+			}
+			if i < len(nb) {
+				db = nb[i]
+			}
+			rc.Bad(key, cb.Pos(), "a value of kind %s is routed differently at the root and in a nested position (apart from isPtr): statement %d is `%s` in typeToCode and `%s` in typeToCodeWithPtr; the same Go value would be encoded differently depending on where it sits", k, i+1, oneLine(da), oneLine(db))
+		} else {
+			rc.OK(key, cb.Pos(), "same decisions in both routers (%d statements, isPtr aside)", len(na))
+		}
+	}
+	if n < 15 {
+		rc.Unknown("encoder.typeToCode~typeToCodeWithPtr/kinds", a.Pos(), "only %d kinds are routed by both functions", n)
+	}
+}
+
+func oneLine(s string) string {
+	s = strings.Join(strings.Fields(s), " ")
+	if len(s) > 160 {
+		s = s[:160] + "…"
+	}
+	return s
+}
+
+// ---- C01.R7 sorted maps are ordered by key, not by encoded text ----
+
+// encoding/json sorts map members by the key string (the resolved text for integer and
+// TextMarshaler keys). Mapslice.Less compares MapItem.Key; if that field holds a slice of
+// the output buffer, the comparison is over the encoded text including the closing quote,
+// the separator and every escape sequence.
+func c01r7(rc *core.RC) {
+	p := rc.P
+	less := p.Func("encoder", "Mapslice.Less")
+	if less == nil {
+		rc.Unknown("encoder.(*Mapslice).Less", token.NoPos, "comparator not found")
+		return
+	}
+	usesKey := false
+	ast.Inspect(less.Body, func(m ast.Node) bool {
+		if f := core.FieldOf(p.Info(less), exprOf(m)); f != nil && f.Name() == "Key" {
+			usesKey = true
+		}
+		return true
+	})
+	if !usesKey {
+		rc.Unknown("encoder.(*Mapslice).Less/key", less.Pos(), "the comparator does not read MapItem.Key")
+		return
+	}
+	n := 0
+	for _, vm := range core.VMPkgs {
+		fd := p.Func(vm, "Run")
+		if fd == nil {
+			continue
+		}
+		info := p.Info(fd)
+		rc.Touch(vm + ".Run")
+		// the output buffer: the []byte parameter of Run
+		var buf types.Object
+		for _, f := range fd.Type.Params.List {
+			for _, nm := range f.Names {
+				if o := info.Defs[nm]; o != nil && o.Type().String() == "[]byte" {
+					buf = o
+				}
+			}
+		}
+		ast.Inspect(fd.Body, func(m ast.Node) bool {
+			as, ok := m.(*ast.AssignStmt)
+			if !ok || len(as.Lhs) != 1 || len(as.Rhs) != 1 {
+				return true
+			}
+			f := core.FieldOf(info, as.Lhs[0])
+			if f == nil || f.Name() != "Key" || !strings.HasSuffix(f.Pkg().Path(), "internal/encoder") {
+				return true
+			}
+			n++
+			key := vm + ".Run/map-sort-key"
+			if sl, ok := core.Unparen(as.Rhs[0]).(*ast.SliceExpr); ok && buf != nil && core.ObjOf(info, sl.X) == buf {
+				rc.Bad(key, as.Pos(), "the sort key of a map member is `%s`, a slice of the output buffer: members are ordered by their encoded text (closing quote, separator and escapes included), so {\"a\":1,\"a \":2} is written with \"a \" first and keys that need escaping move; encoding/json orders by the key string", core.Src(p.Fset, as.Rhs[0]))
+			} else {
+				rc.OK(key, as.Pos(), "the sort key is not a slice of the encoded output")
+			}
+			return true
+		})
+	}
+	if n < 4 {
+		rc.Unknown("vm/map-sort-key", token.NoPos, "found %d stores of MapItem.Key in the interpreters", n)
+	}
+}
+
+func exprOf(n ast.Node) ast.Expr {
+	if e, ok := n.(ast.Expr); ok {
+		return e
+	}
+	return nil
+}
+
+// ---- C01.R8 pointer-shaped composites: both kinds that can be stored directly in an interface word are handled ----
+
+// A struct with one pointer-shaped field and an array of length one with a pointer-shaped element
+// are both "direct" interface values: the interface's data word is the value, not its address.
+// The compiler handles the struct case (structCode consults runtime.IfaceIndir and sets
+// isIndirect); the array constructor must do the same or the interpreters treat the value as
+// the array's address.
+func c01r8(rc *core.RC) {
+	p := rc.P
+	reach := func(fd *ast.FuncDecl) bool {
+		seen := map[*ast.FuncDecl]bool{}
+		var visit func(fd *ast.FuncDecl, depth int) bool
+		visit = func(fd *ast.FuncDecl, depth int) bool {
+			if fd == nil || fd.Body == nil || seen[fd] || depth > 2 {
+				return false
+			}
+			seen[fd] = true
+			info := p.Info(fd)
+			found := false
+			ast.Inspect(fd.Body, func(m ast.Node) bool {
+				if found {
+					return false
+				}
+				if call, ok := m.(*ast.CallExpr); ok {
+					if core.CalleeName(info, call) == "runtime.IfaceIndir" {
+						found = true
+						return false
+					}
+					if f := core.Callee(info, call); f != nil && f.Pkg() != nil && f.Pkg().Path() == core.PkgPaths["encoder"] && !strings.HasSuffix(f.Name(), "typeToCode") && f.Name() != "typeToCodeWithPtr" {
+						if visit(p.DeclOf(f), depth+1) {
+							found = true
+						}
+					}
+				}
+				return true
+			})
+			return found
+		}
+		return visit(fd, 0)
+	}
+	n := 0
+	for _, k := range []struct{ kind, ctor string }{{"Struct", "Compiler.structCode"}, {"Array", "Compiler.arrayCode"}} {
+		fd := p.Func("encoder", k.ctor)
+		key := "encoder.(*" + strings.Replace(k.ctor, ".", ").", 1) + "/direct-interface"
+		if fd == nil {
+			rc.Unknown(key, token.NoPos, "constructor not found")
+			continue
+		}
+		n++
+		rc.Touch("encoder.(*" + strings.Replace(k.ctor, ".", ").", 1))
+		if reach(fd) {
+			rc.OK(key, fd.Pos(), "the %s constructor consults runtime.IfaceIndir", k.kind)
+		} else {
+			rc.Bad(key, fd.Pos(), "kind %s can be pointer-shaped (stored directly in an interface word) but its constructor never consults runtime.IfaceIndir, while the Struct constructor does: the interpreters take the interface's data word as the address of the array", k.kind)
+		}
+	}
+	if n < 2 {
+		rc.Unknown("encoder/composite-constructors", token.NoPos, "structCode/arrayCode not found")
+	}
+}
